@@ -4,6 +4,9 @@ package main
 // verif_export_c06.go) over kube-client/fake with a generated directory of bash hooks. Every hook
 // appends one line per execution (hook, exit code, compact binding contexts) to a per-case log and exits
 // as its failure script says. The observation is the global execution log.
+// Faults of the enabling itself: a reactor of the fake dynamic client fails the initial LIST of a chosen
+// binding's monitor (AddMonitor) in chosen attempts of a hook's EnableKubernetesBindings task (c06Injector).
+// Secrets are created while the main queue works (a random trickle plus one after every failed execution).
 
 import (
 	"context"
